@@ -345,15 +345,18 @@ FreshPat(t) ==
   /\ \A i \in 1..Len(calls) : calls[i].k = "p" => KeysOf(calls[i].t) \cap KeysOf(t) = {}
 
 Init == hy = EmptyHy /\ calls = <<>>
-CallLoadPatterns(t) == /\ NCalls(TRUE) < MaxP /\ FreshPat(t)
-                       /\ hy' = LoadPatterns(hy, t) /\ calls' = Append(calls, [k |-> "p", t |-> t])
-CallInsertException(t) == /\ NCalls(FALSE) < MaxE
-                          /\ hy' = InsertException(hy, t) /\ calls' = Append(calls, [k |-> "e", t |-> t])
-CallInsertExceptions(t) == /\ NCalls(FALSE) < MaxE
-                           /\ hy' = InsertExceptions(hy, t) /\ calls' = Append(calls, [k |-> "E", t |-> t])
-Next == \/ \E t \in PatTexts : CallLoadPatterns(t)
-        \/ \E t \in ExcTexts : CallInsertException(t)
-        \/ \E t \in ExcListTexts : CallInsertExceptions(t)
+\* (the guards stand outside the quantifiers so that TLC does not enumerate the texts in vain)
+CallLoadPatterns ==
+  /\ NCalls(TRUE) < MaxP
+  /\ \E t \in PatTexts : /\ FreshPat(t)
+                         /\ hy' = LoadPatterns(hy, t) /\ calls' = Append(calls, [k |-> "p", t |-> t])
+CallInsertException ==
+  /\ NCalls(FALSE) < MaxE
+  /\ \E t \in ExcTexts : hy' = InsertException(hy, t) /\ calls' = Append(calls, [k |-> "e", t |-> t])
+CallInsertExceptions ==
+  /\ NCalls(FALSE) < MaxE
+  /\ \E t \in ExcListTexts : hy' = InsertExceptions(hy, t) /\ calls' = Append(calls, [k |-> "E", t |-> t])
+Next == CallLoadPatterns \/ CallInsertException \/ CallInsertExceptions
 Spec == Init /\ [][Next]_vars
 
 \* the state is exactly what the transcribed loaders build from the history
